@@ -39,7 +39,8 @@ _finite = st.one_of(st.sampled_from([0.0, 1.0, -1.5, 1e-9, 123456.789]), st.floa
 
 
 _comp = st.one_of(
-    st.sampled_from(["audio", "site 1", "rec.wav", "a.b.c", "día_1", "録音", "x", "cafe\u0301", "\u212bngstr\u00f6m", "\u1112\u1161\u11ab", "\ufb01le"]),
+    st.sampled_from(["audio", "site 1", "rec.wav", "a.b.c", "día_1", "録音", "x", "cafe\u0301", "\u212bngstr\u00f6m", "\u1112\u1161\u11ab", "\ufb01le",
+                     " lead", "trail ", "nbsp\u00a0", "\u3000wide", "tab\t", "back\\slash", "semi;colon", "100%", "#1", "~tmp", "-dash", "dot."]),
     st.text(alphabet=st.characters(blacklist_characters="/\x00", blacklist_categories=("Cs",)), min_size=1, max_size=6).filter(lambda c: c not in (".", "..")),
 )
 
@@ -50,7 +51,7 @@ def _relpath(draw, i, dotdot=False):
     if dotdot and draw(st.integers(0, 3)) == 0:
         # a lexically un-normalised path that stays below the audio directory: site_a/../site_b/...
         comps = comps + ["site_a", "..", "site_b"]
-    return "/".join(comps + [f"rec_{i}" + draw(st.sampled_from([".wav", ".WAV", " (1).flac", ".é.wav"]))])
+    return "/".join(comps + [f"rec_{i}" + draw(st.sampled_from([".wav", ".WAV", " (1).flac", ".é.wav", ".wav ", ".wav\u00a0", ".w\\av"]))])
 
 
 class _UidFactory:
@@ -110,6 +111,17 @@ def _idx_list(n, maxn, unique=True):
     return st.lists(st.integers(0, n - 1), min_size=0, max_size=maxn, unique=unique)
 
 
+@st.composite
+def _idx_list_dup(draw, n, maxn):
+    """like _idx_list, but one time in five an element is listed a second time (the very same object twice in one list: a tag
+    attached twice, a recording listed twice, a sound event counted twice in a sequence) - lists are kept as they are"""
+    out = draw(_idx_list(n, maxn))
+    if out and draw(st.integers(0, 4)) == 0:
+        out = list(out)
+        out.insert(draw(st.integers(0, len(out))), out[draw(st.integers(0, len(out) - 1))])
+    return out
+
+
 def _opt_idx(n):
     if n == 0:
         return st.none()
@@ -118,7 +130,7 @@ def _opt_idx(n):
 
 @st.composite
 def _ptags(draw, ntags, maxn=3):
-    idx = draw(_idx_list(ntags, maxn))
+    idx = draw(_idx_list_dup(ntags, maxn))
     return [[i, draw(_score)] for i in idx]
 
 
@@ -167,8 +179,8 @@ def collection_spec(draw, ctype=None, paths="plain"):
                 "longitude": draw(st.one_of(st.none(), st.floats(-180, 180, allow_nan=False))),
                 "license": draw(_opt_text),
                 "rights": draw(_opt_text),
-                "owners": draw(_idx_list(nus, 2)),
-                "tags": draw(_idx_list(ntg, 3)),
+                "owners": draw(_idx_list_dup(nus, 2)),
+                "tags": draw(_idx_list_dup(ntg, 3)),
                 "features": draw(_features()),
                 "notes": draw(_notes(nus)),
             }
@@ -191,7 +203,7 @@ def collection_spec(draw, ctype=None, paths="plain"):
         top["metrics"] = draw(_features())
     spec["top"] = top
     if ctype in ("recording_set", "dataset"):
-        top["recordings"] = draw(_idx_list(nrec, 3))
+        top["recordings"] = draw(_idx_list_dup(nrec, 3))
         return spec
 
     ncl = draw(st.integers(1, 3))
@@ -209,7 +221,7 @@ def collection_spec(draw, ctype=None, paths="plain"):
     nsq = draw(st.sampled_from([0, 1, 2, 3, 2, 3]))
     seqs = []
     for i in range(nsq):
-        seqs.append({"uuid": draw(_uuid()), "ses": draw(_idx_list(nse, 3)), "features": draw(_features(2)), "parent": draw(_opt_idx(i))})
+        seqs.append({"uuid": draw(_uuid()), "ses": draw(_idx_list_dup(nse, 3)), "features": draw(_features(2)), "parent": draw(_opt_idx(i))})
     spec.update({"clips": clips, "sound_events": ses, "sequences": seqs})
 
     want_ann = ctype in ANNOT_TYPES or ctype == "evaluation"
@@ -218,13 +230,13 @@ def collection_spec(draw, ctype=None, paths="plain"):
     def annotation_side():
         nsa = draw(st.integers(0, 4)) if nse else 0
         se_anns = [
-            {"uuid": draw(_uuid()), "se": draw(st.integers(0, nse - 1)), "notes": draw(_notes(nus)), "tags": draw(_idx_list(ntg, 3)),
+            {"uuid": draw(_uuid()), "se": draw(st.integers(0, nse - 1)), "notes": draw(_notes(nus)), "tags": draw(_idx_list_dup(ntg, 3)),
              "created_by": draw(_opt_idx(nus)), "created_on": draw(_dt())}
             for _ in range(nsa)
         ]
         nqa = draw(st.sampled_from([0, 1, 2, 2])) if nsq else 0
         seq_anns = [
-            {"uuid": draw(_uuid()), "seq": draw(st.integers(0, nsq - 1)), "notes": draw(_notes(nus)), "tags": draw(_idx_list(ntg, 2)),
+            {"uuid": draw(_uuid()), "seq": draw(st.integers(0, nsq - 1)), "notes": draw(_notes(nus)), "tags": draw(_idx_list_dup(ntg, 2)),
              "created_by": draw(_opt_idx(nus)), "created_on": draw(_dt())}
             for _ in range(nqa)
         ]
